@@ -61,7 +61,9 @@ def run(rep, tier):
         rule_rekey_shape(rep, m, b.cfg.name)
         rule_inputs(rep, m, b.cfg.name)
         rule_reseed_limit(rep, m, b.cfg.name)
-        rule_status(rep, m, b.cfg.name)
+        # status propagation is judged on each public function with its file-local helpers inlined
+        lri = repo.lower(b, group="lib", level="O0", langs=("c",), scev=True, inline_internal=True)
+        rule_status(rep, ir.Module.load(lri.json), b.cfg.name)
         rule_mixer(rep, m, b.cfg.name)
     rule_rekey_semantic(rep, tier)
     n = len(builds)
